@@ -41,7 +41,7 @@ impl<T: Corp> Ops for E<T> {
     }
     fn roundtrip(&self, g: &mut StdRng) -> Value {
         let v = T::gen(g, 3);
-        let bytes = match guard(|| Encode!(&v)) { Ok(Ok(b)) => b, Ok(Err(e)) => return json!({"enc_err": e.to_string()}), Err(s) => return json!({"panic": s, "at": "encode"}) };
+        let bytes = match guard(|| Encode!(&v)) { Ok(Ok(b)) => b, Ok(Err(e)) => return json!({"v": v.absv(), "res": {"enc_err": e.to_string()}}), Err(s) => return json!({"v": v.absv(), "res": {"panic": s, "at": "encode"}}) };
         let r = guard(|| { let mut de = candid::de::IDLDeserialize::new(&bytes)?; let x = de.get_value::<T>()?; de.done()?; Ok::<T, candid::Error>(x) });
         let res = match r { Ok(Ok(x)) => if x.same(&v) { json!({"ok": 1}) } else { json!({"differs": x.absv()}) }, Ok(Err(e)) => json!({"err": 1, "msg": crate::util::errmsg(&e)}), Err(s) => json!({"panic": s, "at": "decode"}) };
         json!({"v": v.absv(), "blob": bytesj(&bytes), "res": res})
